@@ -98,6 +98,12 @@ func didGenesisRules(p *Prog, r *Report, m *didModel, clause string) {
 			t := o.Of(cs.Instr.(*ssa.Call))
 			ok := t.Op == "call" && len(t.Args) == 4 && t.Args[2].Op == "res" && t.Args[3].Op == "deref" &&
 				t.Args[2].Contains(func(x *Term) bool { return x.Op == "next" }) && t.Args[3].Contains(func(x *Term) bool { return x.Op == "next" })
+			if !ok && t.Op == "call" && len(t.Args) == 4 && t.Args[3].Op == "deref" && len(t.Args[3].Args) == 1 && t.Args[3].Args[0].Op == "lookup" {
+				// the same walk over a sorted list of all the map's keys: value = *M[K], key derived from that very K = keys(M)[i]
+				if _, K, isWalk := sortedKeyWalk(t.Args[3]); isWalk {
+					ok = t.Args[2].Contains(func(x *Term) bool { return x.Eq(K) })
+				}
+			}
 			r.Check(ok, kp("ORIGIN", "x/did.InitGenesis#stores-entry-unchanged"), "import stores the map entry's key and value untransformed", p.Pos(cs.Instr.Pos()),
 				"SetDIDDocument(ctx, key, *value) of the map iteration", "stored "+t.String())
 		}
